@@ -117,23 +117,24 @@ def hole_skip_rule(rep, prog, cfg):
                 continue
             n += 1
             again = set(inner) | {bb for bb, t in b.calls() if (callee(t) or {}).get("inst") == b.id}
+            # decided on the outcome (A13): with the wrapped iterator's result holding Some(None) — an emptied slot — no return is
+            # reachable without calling the wrapped iterator or this method again; whatever form the test takes (`match`, `?` +
+            # `match`, `is_some()`, `flatten` of one step is NOT enough: it returns None for the second of two adjacent holes)
+            from ..cfg import VariantReach
+            vr = VariantReach(b)
             bad = None
             for ib in inner:
                 res = b.blocks[ib]["t"]["dest"]["l"]
-                # the hole: outer Some, inner None
-                outer = [x for x in tables.discr_switches(b) if x["place"]["l"] == res and not x["place"]["p"]]
-                inner_sw = [x for x in tables.discr_switches(b) if x["place"]["l"] == res and any(isinstance(e, dict) and e.get("n") == "Some" for e in x["place"]["p"])]
-                hole = None
-                for x in inner_sw:
-                    hole = x["arms"].get("None", x["otherwise"] if "Some" in x["arms"] else None)
-                if not outer or hole is None:
-                    bad = (b.blocks[ib]["ts"], "the result of the wrapped iterator is used without a test for an emptied slot (Some(None)) in %s::%s: a hole "
-                           "ends the iteration (or is yielded as None) while fields remain" % (short, it["name"]))
-                    break
-                escapes = [x for x in reach(g.succs, [hole], avoid=again) if b.blocks[x]["t"]["k"] == "return"]
+                after = vr.blocks_after_def(ib, res, ("Some", "None"), avoid=again)
+                escapes = sorted(x for x in after if b.blocks[x]["t"]["k"] == "return")
                 if escapes:
-                    bad = (b.blocks[hole]["ts"], "%s::%s can return from the arm for an emptied slot without trying the next slot again: with two adjacent "
-                           "removed fields the iteration ends (or yields None) while fields remain" % (short, it["name"]))
+                    bad = (b.blocks[ib]["ts"], "%s::%s can return after the wrapped iterator yielded an emptied slot (Some(None)) without trying the next "
+                           "slot again: with removed fields the iteration ends (or yields None) while fields remain" % (short, it["name"]))
+                    break
+                # ... and a real element is handed out: with Some(Some(..)) a return is reachable without another step
+                some = vr.blocks_after_def(ib, res, ("Some", "Some"), avoid=again)
+                if not any(b.blocks[x]["t"]["k"] == "return" for x in some):
+                    bad = (b.blocks[ib]["ts"], "%s::%s never returns the element the wrapped iterator yielded" % (short, it["name"]))
                     break
             rep.check(bad is None, rule, inst, b.loc(bad[0] if bad else b.span), bad[1] if bad else "")
     rep.floor(rule, cfg + "/hole-skipping methods", n, 4)
